@@ -309,17 +309,18 @@ func (runInfo *runInfoStruct) callVMFunctionDirect(f reflect.Value, callExpr *as
 	runInfo.rv = nilValue
 
 	if callExpr.Go {
+		ctx := runInfo.ctx
 		switch {
 		case fn0 != nil:
-			go fn0(runInfo.ctx)
+			go runInfo.callInGoroutine(func() { fn0(ctx) })
 		case fn1 != nil:
-			go fn1(runInfo.ctx, args[0])
+			go runInfo.callInGoroutine(func() { fn1(ctx, args[0]) })
 		case fn2 != nil:
-			go fn2(runInfo.ctx, args[0], args[1])
+			go runInfo.callInGoroutine(func() { fn2(ctx, args[0], args[1]) })
 		case fn3 != nil:
-			go fn3(runInfo.ctx, args[0], args[1], args[2])
+			go runInfo.callInGoroutine(func() { fn3(ctx, args[0], args[1], args[2]) })
 		case fn4 != nil:
-			go fn4(runInfo.ctx, args[0], args[1], args[2], args[3])
+			go runInfo.callInGoroutine(func() { fn4(ctx, args[0], args[1], args[2], args[3]) })
 		}
 		return true
 	}
